@@ -29,6 +29,15 @@ Theorem C16_match : forall f peer, matches f peer = true <-> admits f peer.
 Proof. exact matches_iff. Qed.
 Print Assumptions C16_match.
 
+(* a set filter admits exactly its members - the empty set admits nobody *)
+Theorem C16_match_set : forall s peer, matches (AnyOf s) peer = true <-> In peer s.
+Proof. exact match_set. Qed.
+Print Assumptions C16_match_set.
+
+Theorem C16_match_empty_set : forall peer, matches (AnyOf []) peer = false.
+Proof. exact match_empty_set. Qed.
+Print Assumptions C16_match_empty_set.
+
 Theorem C16_match_v6 : forall w segs, matches (WildcardIpv4 w) (V6 segs) = false.
 Proof. exact wildcard_never_matches_v6. Qed.
 Print Assumptions C16_match_v6.
@@ -90,6 +99,13 @@ Theorem C16_forward_paths : forall fn, In fn public_ctors ->
   forall f : afilter, effective 8 fn f <> [] /\ Forall (fun r => r = Some f) (effective 8 fn f).
 Proof. exact forward_public. Qed.
 Print Assumptions C16_forward_paths.
+
+(* ServerTask::new hands the accept loop the very filter it is given: between its parameter list and the struct literal
+   no statement rebinds or assigns `filter` (every such statement is regenerated into sink_filter_rebindings) and the
+   field is initialised with the parameter itself *)
+Theorem C16_sink_untransformed : sink_filter_rebindings = [] /\ sink_filter_field = "filter"%string.
+Proof. exact sink_untransformed. Qed.
+Print Assumptions C16_sink_untransformed.
 
 Theorem C16_forward_misc : sink_stores_filter = true /\ ffi_filter_conversion_is_identity = true
   /\ (6 <= List.length public_ctors)%nat.
